@@ -831,7 +831,7 @@ class SA:
             return SA(_map(lambda x: DT(x) if isinstance(x, str) else x, self.a), "M")  # ISO text -> datetime64
         if k in ("M", "m") and self.kind in ("f", "i") and self.a.size and not isinstance(self.a.flat[0], (DT, TD, str)):
             # numbers -> whole seconds (numpy truncates towards zero); only second resolution is modelled
-            if "[s]" not in str(t):
+            if "[" in str(t) and "[s]" not in str(t):
                 raise Unsupported(f"astype({t!r}) on numbers: only second resolution is modelled")
             cls = DT if k == "M" else TD
 
